@@ -4,6 +4,8 @@ package main
 // the binding of source-level local names at loop heads.
 
 import (
+	"fmt"
+	"os"
 	"go/ast"
 	"go/types"
 	"sort"
@@ -345,94 +347,61 @@ func (env *Env) loopIter() *iterState {
 // (and postconditions): phis and allocs by their variable name; for names
 // that are plain SSA values, the DebugRef information.
 func (x *Exec) bindLocals(env *Env, s *State, li *loopInfo) {
-	type cand struct {
-		v   ssa.Value
-		pos int
-		raw bool // bind the SSA value itself (a pointer held in a variable), do not load
-	}
-	best := map[string]cand{}
-	consider := func(name string, v ssa.Value, pos int) {
-		if name == "" || name == "_" {
-			return
-		}
-		if _, isParam := x.params[name]; isParam {
-			if _, ok := v.(*ssa.Parameter); ok {
-				return
-			}
-		}
-		if _, ok := s.env[v]; !ok {
-			if _, isConst := v.(*ssa.Const); !isConst {
-				return
-			}
-		}
-		c, ok := best[name]
-		if !ok || pos >= c.pos {
-			best[name] = cand{v, pos, false}
-		}
+	cur := map[string]nameBind{}
+	for n, nb := range s.names {
+		cur[n] = nb
 	}
 	// loop-head phis take precedence inside their loop
-	for _, b := range x.fn.Blocks {
-		for i, in := range b.Instrs {
-			pos := b.Index*10000 + i
-			switch t := in.(type) {
-			case *ssa.Phi:
-				consider(t.Comment, t, pos)
-			case *ssa.Alloc:
-				consider(t.Comment, t, pos)
-			case *ssa.DebugRef:
-				if id, ok := t.Expr.(*ast.Ident); ok && !t.IsAddr {
-					// only bind names whose value is defined once (not reassigned): the
-					// phi/alloc cases above cover mutable variables
-					if _, isPhi := t.X.(*ssa.Phi); isPhi {
-						continue
-					}
-					if _, isAlloc := t.X.(*ssa.Alloc); isAlloc {
-						// the variable's value is the pointer to that allocation
-						if _, ok := s.env[t.X]; ok {
-							if c, seen := best[id.Name]; !seen || pos >= c.pos {
-								best[id.Name] = cand{t.X, pos, true}
-							}
-						}
-						continue
-					}
-					consider(id.Name, t.X, pos)
+	if li != nil {
+		for _, in := range li.head.Instrs {
+			if p, ok := in.(*ssa.Phi); ok && p.Comment != "" {
+				if v, ok := s.env[p]; ok {
+					cur[p.Comment] = nameBind{v, false}
 				}
 			}
 		}
 	}
-	if li != nil {
-		for _, in := range li.head.Instrs {
-			if p, ok := in.(*ssa.Phi); ok && p.Comment != "" {
-				best[p.Comment] = cand{p, 1 << 30, false}
-			}
-		}
-	}
-	names := make([]string, 0, len(best))
-	for n := range best {
+	names := make([]string, 0, len(cur))
+	for n := range cur {
 		names = append(names, n)
 	}
 	sort.Strings(names)
+	if os.Getenv("GOWP_NAMES") != "" {
+		for _, n := range names {
+			fmt.Fprintf(os.Stderr, "name %s = %s cell=%v\n", n, cur[n].v.S, cur[n].cell)
+		}
+		fmt.Fprintln(os.Stderr, "--")
+	}
 	for _, n := range names {
+		nb := cur[n]
+		v := nb.v
+		if nb.cell {
+			v = x.cellValue(s, nb.v)
+		}
 		if _, taken := env.vars[n]; taken {
 			if _, isParam := x.params[n]; !isParam {
 				continue
 			}
 			// a local shadowing/reassigning a parameter: keep the parameter's entry value under the
-			// plain name; the current value is available as name$
-			c := best[n]
-			if c.raw {
-				env.vars[n+"_cur"] = s.env[c.v]
-			} else {
-				env.vars[n+"_cur"] = x.localValue(s, c.v)
-			}
+			// plain name; the current value is available as name_cur
+			env.vars[n+"_cur"] = v
 			continue
 		}
-		if best[n].raw {
-			env.vars[n] = s.env[best[n].v]
-		} else {
-			env.vars[n] = x.localValue(s, best[n].v)
-		}
+		env.vars[n] = v
 	}
+}
+
+// cellValue: the current contents of a variable living in memory — except for
+// composite (struct, array) variables, where the pointer is more useful.
+func (x *Exec) cellValue(s *State, p Value) Value {
+	et := p.T.Underlying().(*types.Pointer).Elem()
+	if _, isStruct := et.Underlying().(*types.Struct); isStruct && kindOf(et) == kStruct {
+		return p
+	}
+	if _, isArr := et.Underlying().(*types.Array); isArr {
+		return p
+	}
+	return s.loadFrom(s.heap, p)
 }
 
 func (x *Exec) localValue(s *State, v ssa.Value) Value {
